@@ -46,8 +46,10 @@ ASSUMPTIONS = [
     "decoders of encoded headers are abstract in the model (Section variable dec); the window theorem holds for every dec",
     "the residual disjuncts of the theorems are CRC-32 collisions between two specific 20-byte strings (2^-32 per crash in "
     "a window of at most 15 byte positions); they are not excluded, they are named",
-    "file systems that persist writes out of order: covered for one lost write (theorems C14_*_sig_first_safe, "
-    "C14_sig_field_lost_safe, exploration of image_lost), not for arbitrary subsets of lost blocks",
+    "file systems that persist writes out of order: covered for ONE lost write (theorems C14_*_lost_body_write_safe at "
+    "operation level for every later crash point, C14_*_sig_first_safe for any damage below an intact new signature "
+    "header, C14_sig_field_lost_safe for a lost field write of the final signature header; exploration of image_lost), "
+    "not for arbitrary subsets of lost blocks",
 ]
 
 MAGIC = b"7z\xbc\xaf\x27\x1c"
@@ -305,6 +307,35 @@ def session_specs(tier):
     add("a", "lzma2+aes", "encoded", APP1, old=oldspec("lzma2+aes", "encoded", M1, password="pw", henc=True),
         password="pw", henc=True, sample=smp)
     if tier != "quick":
+        rng = random.Random(0xC14C14)
+        allch = ["copy", "lzma2", "deflate", "bzip2", "zstd", "lzma", "ppmd", "brotli", "delta+lzma2", "x86+lzma2", "x86+deflate"]
+
+        def rand_members(tag):
+            ms = []
+            for i in range(rng.randrange(1, 5)):
+                name = "%s%d%s" % (tag, i, rng.choice(["", ".txt", "/sub/x.bin", "-\u00e9\u4e2d"]))
+                size = rng.choice([0, 1, 2, 15, 16, 17, 100, 300, 1200])
+                kind = rng.choice(["text", "zeros", "random", "header-like"])
+                if kind == "text":
+                    d = texture(size, rng.randrange(1000))
+                elif kind == "zeros":
+                    d = bytes(size)
+                elif kind == "random":
+                    d = rng.randbytes(size)
+                else:
+                    d = (b"\x01\x00" + bytes(size))[:max(size, 2)]
+                ms.append((name, d))
+            return ms
+        for n in range(36):
+            ch = rng.choice(allch)
+            hm = rng.choice(["raw", "encoded", "encoded"])
+            if rng.random() < 0.4:
+                add("w", ch, hm, rand_members("r%d_" % n), sample=2500, tag="#rand%d" % n)
+            else:
+                och = rng.choice(allch)
+                ohm = rng.choice(["raw", "encoded", "encoded"])
+                add("a", ch, hm, rand_members("r%d_" % n), old=oldspec(och, ohm, rand_members("o%d_" % n)), sample=2500,
+                    tag="#rand%d" % n)
         big = [("big.bin", texture(5000, 3)), ("t.txt", texture(700, 4))]
         for ch in ("copy", "lzma2", "bzip2"):
             add("w", ch, "encoded", big, sample=4000)
